@@ -289,5 +289,5 @@ def run(ck):
     from . import c15 as _c15
     _c15.avoid_spurious_buferror(ck, P)
     from .. import condparity
-    ck.floor("SIB/ref-conditions", condparity.check(ck, P, "SIB/ref-conditions", only={"deflate_fast.c:deflate_fast", "deflate_slow.c:deflate_slow", "deflate_medium.c:deflate_medium", "deflate_quick.c:deflate_quick", "deflate_rle.c:deflate_rle", "deflate_huff.c:deflate_huff", "deflate.c:deflate", "deflate_stored.c:deflate_stored", "inflate.c:inflateSync", "inflate.c:syncsearch"}), 40)
+    ck.floor("SIB/ref-conditions", condparity.check(ck, P, "SIB/ref-conditions", only={"deflate_fast.c:deflate_fast", "deflate_slow.c:deflate_slow", "deflate_medium.c:deflate_medium", "deflate_quick.c:deflate_quick", "deflate_rle.c:deflate_rle", "deflate_huff.c:deflate_huff", "deflate.c:deflate", "deflate_stored.c:deflate_stored", "inflate.c:inflateSync"}), 40)
     ck.assumptions += ["rustc MIR; CONFIGURATION_TABLE provenance from the const evaluator", "host target; K1"]
